@@ -35,6 +35,52 @@ PROPS = {
                                   "Context methods (context.go, context_array.go) and rules_event_rcv.go are hand-modelled in CE/Rules/Machine.lean and tied by the RULES correspondence"],
         assumptions=["the grammar CE/Rules/Spec.lean is the reading of the property text; its equivalence with the machine is exercised (WF.REL oracle), not yet proved"],
     ),
+    "C11": dict(
+        claim="binary arrays: theorem binary_split_irrelevant — for any division of a chunk's bytes among any number of data events the validator ends in the same state (same error, same completion) as for one data event; overflow rejected at the exceeding event. "
+              "Text arrays (streaming UTF-8 with carried remainder): every case is judged by the independent array specification (Spec.chunksP: data fills the chunks, last chunk final, each text chunk valid UTF-8) "
+              "and four different data splittings of every generated chunking must give one verdict",
+        note="partial: the text half (StreamStringData) is not yet a theorem; it is carried by model/implementation correspondence on every split (incl. inside multi-byte characters, zero-length events, truncated and invalid sequences) and the WF.REL oracle. Trusted: hand-modelled Context array methods",
+        level="proof", n_quick=6000, n_thorough=300000, shards=16,
+        lean_modules=["CE.Props.C11", "CE.Rules.ArraySplit", "CE.Gen.Check"],
+        rule="one array per case: random type (all 19), 1-4 chunks, contents incl. multi-byte UTF-8, half of the cases with one injected defect (short/long data, last chunk not final, bad byte, chunk boundary inside a character, truncated character, count+1); each chunking is fed in 4 data splittings (whole, byte-wise, two random); distinct by event text",
+        trusted_base=COMMON_TB + ["rule table translated from /repo/rules/*.go (extract/extract.py) and proved equal to the model table in CE/Gen/Check.lean on every run", "Context methods and rules_event_rcv.go hand-modelled in CE/Rules/Machine.lean, tied by the RULES correspondence (verdict, rejection index, error class, forwarded events)"],
+    ),
+    "C12": dict(
+        claim="theorem normalize_eq_iff: NotifyKey's normalisation of the four integer event forms (uint64 / negint / int64 / *big.Int, as Go dynamic values incl. the word-array form) gives equal keys iff the events denote the same integer, for every magnitude; notifyKey rejects iff the key is present; table facts: every key position of maps and record types notifies the key. "
+              "Harness: maps and record types with deliberately colliding / non-colliding keys in every event form (ints, strings whole/chunked, resource ids, uids, booleans, times) — the verdict must be DUPKEY iff two keys denote the same value",
+        note="time keys are compared through the external Time.String(): correspondence/oracle only. Trusted: GoKey as the model of Go map-key identity (dynamic type + value)",
+        level="proof", n_quick=8000, n_thorough=400000, shards=16,
+        lean_modules=["CE.Props.C12", "CE.Gen.Check"],
+        rule="2-5 keys per container, each later key colliding with an earlier one with p=1/3 (possibly in another event form); maps and record types; distinct by event text",
+        trusted_base=COMMON_TB + ["rule table translated from /repo/rules/*.go (extract/extract.py) and proved equal to the model table in CE/Gen/Check.lean on every run", "Context methods and rules_event_rcv.go hand-modelled in CE/Rules/Machine.lean, tied by the RULES correspondence (verdict, rejection index, error class, forwarded events)"],
+    ),
+    "C13": dict(
+        claim="mechanism theorems at full strength per function: marking an already marked id fails; a successful mark records id/type/count; backward references are type-checked at once; unknown ids become forward references; the document cannot end with an unresolved forward reference and endDocument is the only way into the terminal rule; key positions use the keyable mask; the marked object is registered on every path out of the marked-object rules; identifier validity. "
+              "Harness: marker-heavy valid streams (forward/backward references, in keys and values, nested marked containers, marked keys) and marker-specific mutations, judged by the independent grammar's global conditions (WF.REL)",
+        note="partial: the whole-document invariant (accepted => all clauses) is not yet a single theorem over run; builder-side reference resolution is checked under C06/C20. Trusted: as C10",
+        level="proof", n_quick=8000, n_thorough=400000, shards=16,
+        lean_modules=["CE.Props.C13", "CE.Gen.Check"],
+        rule="marker-heavy generator (markers p=1/4, references p=1/5, forward references resolved later, markers on keys) plus mutations: unknown reference, duplicate marker, marker on marker/reference, bad identifier, deleted marker, key reference to a non-keyable object; non-trivial = contains a marker or reference",
+        trusted_base=COMMON_TB + ["rule table translated from /repo/rules/*.go (extract/extract.py) and proved equal to the model table in CE/Gen/Check.lean on every run", "Context methods and rules_event_rcv.go hand-modelled in CE/Rules/Machine.lean, tied by the RULES correspondence (verdict, rejection index, error class, forwarded events)"],
+    ),
+    "C14": dict(
+        claim="exactness theorems for every limit test of the validator: depth (beginContainer succeeds iff depth+1 <= max), object count, marker count (error iff exceeded, never spurious), identifier length, whole-array size, chunked-array running total; all container kinds go through beginContainer. "
+              "Harness: for every generated document the structural usage is measured independently (Go and Lean measure must agree) and the validator is run with each limit at usage-1, usage, usage+1: rejected iff usage exceeds the limit",
+        note="partial: the lift from the per-function exactness to whole documents (counters = structural measures) is exercised, not yet proved; MaxDocumentSizeBytes is a decoder limit (CBE reader) and is exercised through decoder runs only. MaxMarkerCount is never read by the code (markers are limited by MaxLocalReferenceCount, as the repository's own test expects): the check follows the code here",
+        level="proof", n_quick=3000, n_thorough=100000, shards=16,
+        lean_modules=["CE.Props.C14", "CE.Gen.Check"],
+        rule="valid documents from the generator; limits depth/objects/array/id/markers each set to usage-1, usage, usage+1 (15 validator runs per document)",
+        trusted_base=COMMON_TB + ["rule table translated from /repo/rules/*.go (extract/extract.py) and proved equal to the model table in CE/Gen/Check.lean on every run", "Context methods and rules_event_rcv.go hand-modelled in CE/Rules/Machine.lean, tied by the RULES correspondence (verdict, rejection index, error class, forwarded events)"],
+    ),
+    "C15": dict(
+        claim="theorem forward_exact: whenever the model of RulesEventReceiver accepts an event it forwards exactly [forwardOf e] (identity except nil big number -> null and NaN float/decimal/big decimal -> NaN event of the same kind); forward_order and rejected_forwards_prefix lift it to whole streams (the forwarded stream is the accepted prefix, in order, nothing else). "
+              "Harness: a recording receiver behind the real validator; forwarded events compared argument by argument with the model and with forwardOf on the implementation's output",
+        note="Trusted: the model's per-method forwarding is hand-written from rules_event_rcv.go and tied by the correspondence on every run",
+        level="proof", n_quick=8000, n_thorough=400000, shards=16,
+        lean_modules=["CE.Props.C15", "CE.Gen.Check"],
+        rule="valid streams with every scalar kind incl. nil big numbers and NaNs in float/decimal/big-decimal form; one in five mutated (prefix forwarded before the rejection)",
+        trusted_base=COMMON_TB + ["rule table translated from /repo/rules/*.go (extract/extract.py) and proved equal to the model table in CE/Gen/Check.lean on every run", "Context methods and rules_event_rcv.go hand-modelled in CE/Rules/Machine.lean, tied by the RULES correspondence (verdict, rejection index, error class, forwarded events)"],
+    ),
 }
 
 NOT_APPLICABLE = {}
